@@ -346,9 +346,9 @@ class DefGen:
             out += [":subject", self.value(label + ".subject")]
         w = f.int(label + ".period", 3)
         if w == 1:
-            out += [":days", 1 + f.int(label + ".days", 30)]
+            out += [":days", f.int(label + ".days", 31)]
         elif w == 2:
-            out += [":seconds", 60 * (1 + f.int(label + ".secs", 30))]
+            out += [":seconds", 60 * f.int(label + ".secs", 31)]
         if f.flag(label + ".from", 1, 3):
             out += [":from", self.value(label + ".fromv")]
         if f.flag(label + ".addresses", 1, 3):
